@@ -940,9 +940,116 @@ def main_gen_go(types, seed, nvals):
     return s, vals, rfs
 
 
+# ---------------------------------------------------------------- embedding graphs for FieldByName
+LEAVES = ["X", "Y", "Z", "W"]
+LEAF_CODE = {"X": 1, "Y": 2, "Z": 3, "W": 4}
+
+
+def G(*types):
+    """types: list of field lists; field: "X" (leaf) | ("e", target) | ("p", target) (embedded by value / pointer)"""
+    return [list(t) for t in types]
+
+
+e_, p_ = (lambda t: ("e", t)), (lambda t: ("p", t))
+FIXED_GRAPHS = [
+    ("diamond-2-below", G([e_(1), e_(2)], [e_(3)], [e_(3)], [e_(4)], ["X", "Y"])),            # S{A;B} A{C} B{C} C{D} D{X,Y}
+    ("diamond-classic", G([e_(1), e_(2)], [e_(3)], [e_(3)], ["X"])),
+    ("diamond-1-below", G([e_(1), e_(2)], [e_(3)], [e_(3)], [e_(4), "Y"], ["X"])),
+    ("diamond-3-below", G([e_(1), e_(2)], [e_(3)], [e_(3)], [e_(4)], [e_(5)], [e_(6)], ["X"])),
+    ("two-joins", G([e_(1), e_(2)], [e_(3), e_(4)], [e_(3), e_(4)], [e_(5)], [e_(5)], [e_(6)], ["X", "Z"])),
+    ("join-then-join", G([e_(1), e_(2)], [e_(3)], [e_(3)], [e_(4), e_(5)], [e_(6)], [e_(6)], [e_(7)], ["X"])),
+    ("diamond-pointers", G([p_(1), p_(2)], [p_(3)], [p_(3)], [p_(4)], ["X", "Y"])),
+    ("diamond-mixed-ptr", G([e_(1), p_(2)], [p_(3)], [e_(3)], [e_(4)], ["X"])),
+    ("shadow-shallower", G([e_(1), e_(2)], [e_(3), "X"], [e_(3)], [e_(4)], ["X", "Y"])),
+    ("shadow-root", G(["X", e_(1), e_(2)], [e_(3)], [e_(3)], ["X"])),
+    ("equal-depth-different-types", G([e_(1), e_(2)], ["X"], ["X", "Y"])),
+    ("equal-depth-deeper", G([e_(1), e_(2)], [e_(3)], [e_(4)], ["X"], ["X"])),
+    ("single-path", G([e_(1)], [e_(2)], [e_(3)], ["X"])),
+    ("two-paths-different-depth", G([e_(1), e_(3)], [e_(2)], [e_(3)], [e_(4)], ["X"])),          # C at depth 1 and 3
+    ("join-at-different-depths", G([e_(1), e_(2)], [e_(2)], [e_(3)], ["X"])),
+    ("doubled-vs-unique-same-depth", G([e_(1), e_(2), e_(5)], [e_(3)], [e_(3)], [e_(4)], ["X"], [e_(6)], [e_(7)], ["X"])),
+    ("doubled-deeper-unique-shallower", G([e_(1), e_(2), e_(5)], [e_(3)], [e_(3)], [e_(4)], [e_(6)], [e_(7)], ["Y"], ["X"])),
+    ("pointer-cycle", G([p_(0), e_(1)], [p_(0), e_(2)], ["X"])),
+    ("pointer-cycle-diamond", G([e_(1), e_(2)], [p_(3)], [p_(3)], [p_(0), e_(4)], [p_(3), "X"])),
+    ("self-pointer", G([p_(0), "X"])),
+    ("triple-path", G([e_(1), e_(2), e_(3)], [e_(4)], [e_(4)], [e_(4)], [e_(5)], ["X"])),
+    ("unique-below-doubled-sibling", G([e_(1), e_(2)], [e_(3), e_(4)], [e_(3)], [e_(5)], [e_(6)], ["X"], ["Y"])),
+]
+
+
+def rand_graph(r):
+    n = r.choice([3, 4, 5, 5, 6, 6, 7])
+    g = []
+    for i in range(n):
+        fs, used = [], set()
+        for _ in range(r.choice([0, 1, 1, 2, 2, 3])):
+            if r.random() < 0.3:
+                t, kind = r.randrange(n), "p"          # pointer: cycles allowed
+            else:
+                if i + 1 >= n:
+                    continue
+                t, kind = r.randrange(i + 1, n), "e"   # value: acyclic
+            if t in used:
+                continue
+            used.add(t)
+            fs.append((kind, t))
+        leaves = [l for l in LEAVES if r.random() < (0.15 if i < n - 2 else 0.5)]
+        for l in leaves:
+            fs.insert(r.randrange(len(fs) + 1), l)
+        g.append(fs)
+    if not any(isinstance(f, str) for t in g for f in t):
+        g[-1].append("X")
+    return g
+
+
+def fb_graphs(seed, nrand):
+    r = random.Random(seed * 31 + 7)
+    gs = list(FIXED_GRAPHS)
+    for k in range(nrand):
+        gs.append(("rand%d" % k, rand_graph(r)))
+    return gs
+
+
+def fb_go(gs):
+    """type declarations + probe calls"""
+    decls, calls = [], []
+    for k, (name, g) in enumerate(gs):
+        tn = lambda i: "Fg%dT%d" % (k, i)
+        for i, fs in enumerate(g):
+            parts = []
+            for f in fs:
+                if isinstance(f, str):
+                    parts.append("%s %s `k:\"%s%d\"`" % (f, {"X": "int", "Y": "string", "Z": "[]int", "W": "float64"}[f], f.lower(), i))
+                else:
+                    parts.append(("*" if f[0] == "p" else "") + tn(f[1]))
+            decls.append("type %s struct{ %s }" % (tn(i), "; ".join(parts)))
+        names = LEAVES + [tn(i) for i in range(len(g))] + ["Nope"]
+        calls.append('\tfbProbe("FB.%d", %s{}, []string{%s})' % (k, tn(0), ", ".join('"%s"' % n for n in names)))
+    return "\n".join(decls) + "\n", calls
+
+
+def fb_coq(g):
+    def fld(f):
+        if isinstance(f, str):
+            return "(SField %d None)" % LEAF_CODE[f]
+        return "(SField %d (Some %d))" % (100 + f[1], f[1])
+    return "[" + "; ".join("[" + "; ".join(fld(f) for f in fs) + "]" for fs in g) + "]"
+
+
+def fb_name_code(k, nm):
+    if nm in LEAF_CODE:
+        return LEAF_CODE[nm]
+    m = __import__("re").match(r"Fg%dT(\d+)$" % k, nm)
+    return 100 + int(m.group(1)) if m else 99
+
+
 def program(seed, nrand, static_main):
     types = all_types(seed, nrand)
     mg, vals, rfs = main_gen_go(types, seed, len(types))
+    gs = fb_graphs(seed, max(10, nrand // 2))
+    fdecl, fcalls = fb_go(gs)
+    mg = mg.replace("\tstaticDeepEqual()", "\n".join(fcalls) + "\n\tstaticDeepEqual()", 1)
     files = {"types.go": types_go(types), "main.go": static_main, "main_gen.go": mg,
-             "sub/inner/pkgb.go": sub_go()}
+             "fbgraphs.go": "package main\n\n" + fdecl, "sub/inner/pkgb.go": sub_go()}
+    program.graphs = gs
     return types, files, vals, rfs
